@@ -5,8 +5,11 @@ package spec
 func init() {
 	registry["C06"].Mutants = append(registry["C06"].Mutants, []Mutant{
 		{Name: "fixrev-secret-stored-before-the-point-check", File: "lnwallet/channel.go",
-			Old:    "\tif !derivedCommitPoint.IsEqual(currentCommitPoint) {\n\t\treturn nil, nil, fmt.Errorf(\"revocation key mismatch\")\n\t}\n\n\t// Ensure that the new pre-image can be placed in preimage store.\n\tif err := store.AddNextEntry(revocation); err != nil {\n\t\treturn nil, nil, err\n\t}\n",
-			New:    "\tif err := store.AddNextEntry(revocation); err != nil {\n\t\treturn nil, nil, err\n\t}\n\tif !derivedCommitPoint.IsEqual(currentCommitPoint) {\n\t\treturn nil, nil, fmt.Errorf(\"revocation key mismatch\")\n\t}\n",
+			// since repair 3b9a88f the store is filled inside the chanstate
+			// method; the reversal of e0a347c is a store insertion ahead of
+			// the comparison in ReceiveRevocation
+			Old:    "\tcurrentCommitPoint := lc.channelState.RemoteCurrentRevocation\n\tderivedCommitPoint := input.ComputeCommitmentPoint(revMsg.Revocation[:])\n",
+			New:    "\tif err := lc.channelState.RevocationStore.AddNextEntry(revocation); err != nil {\n\t\treturn nil, nil, err\n\t}\n\tcurrentCommitPoint := lc.channelState.RemoteCurrentRevocation\n\tderivedCommitPoint := input.ComputeCommitmentPoint(revMsg.Revocation[:])\n",
 			Expect: "secret-reaches-the-store-only-after-it-revoked-the-current-commitment"},
 		{Name: "point-check-against-the-next-revocation", File: "lnwallet/channel.go",
 			Old:    "\tcurrentCommitPoint := lc.channelState.RemoteCurrentRevocation\n\tderivedCommitPoint := input.ComputeCommitmentPoint(revMsg.Revocation[:])",
